@@ -65,4 +65,7 @@ def expected(s):
         else:
             ran.append(h)
     q = "ov-query" if "query" in s else "handler-get"
-    return "exec=ok sudo=ok migrate=ok query=%s ov=[%s] ran=[%s]" % (q, "".join(x + "," for x in ov), "".join(x + "," for x in ran))
+    # second phase: the overrides fail with a bare StdError; a proxy returns it as a value of the contract's error type (through From)
+    perr = lambda k: ("err CE::Std(Generic error: ov-fail:%s)" % k) if k in s else "ok"
+    return "; ".join(["exec=ok", "sudo=ok", "migrate=ok", "query=%s" % q, "ov=[%s]" % "".join(x + "," for x in ov), "ran=[%s]" % "".join(x + "," for x in ran),
+                      "p_exec=" + perr("exec"), "p_sudo=" + perr("sudo"), "p_migrate=" + perr("migrate"), "p_instantiate=" + perr("instantiate")])
